@@ -339,6 +339,10 @@ func (w *World) e2Enabled() []Event {
 	if !sp.NoTimeout && x.wantsTimer() {
 		evs = append(evs, Event{K: "timeout", N: x.id})
 	}
+	if !x.isValidator() && !x.pendingReset {
+		c := x.ctx()
+		evs = append(evs, Event{K: "stale", N: x.id, A: int(c.BlockIndex), B: int(c.ViewNumber)})
+	}
 	if sp.Stale && x.isValidator() {
 		c := x.ctx()
 		if c.ViewNumber > 0 {
